@@ -1,7 +1,540 @@
-// correspondence + search binary for property C15 (stub)
+// C15 — compact numeric encodings are lossless.
+// Correspondence: every `From` impl named in the property is run on the real types and printed as
+// `enc-<type> <value>` / `dec-<type> <code>` lines for the Lean model (RP.Codec).
+// Search oracle (independent of the model): decode(encode v) == v, codes pairwise distinct
+// (sort + dedup), street recovered from the observation / bucket code equals the street the
+// value was built for, pair keys pairwise distinct over flop ∪ turn ∪ river.
+use robopoker::cards::card::Card;
+use robopoker::cards::hand::Hand;
+use robopoker::cards::observation::Observation;
+use robopoker::cards::street::Street;
+use robopoker::clustering::abstraction::Abstraction;
+use robopoker::clustering::pair::Pair;
+use robopoker::gameplay::action::Action;
+use robopoker::mccfr::bucket::Bucket;
+use robopoker::mccfr::edge::Edge;
+use robopoker::mccfr::odds::Odds;
+use robopoker::mccfr::path::Path;
+use rpharness::*;
+
+fn show_action(a: &Action) -> String {
+    match a {
+        Action::Fold => "fold".into(),
+        Action::Check => "check".into(),
+        Action::Call(x) => format!("call:{x}"),
+        Action::Raise(x) => format!("raise:{x}"),
+        Action::Shove(x) => format!("shove:{x}"),
+        Action::Blind(x) => format!("blind:{x}"),
+        Action::Draw(h) => format!("draw:{}", u64::from(*h)),
+    }
+}
+fn show_edge(e: &Edge) -> String {
+    match e {
+        Edge::Draw => "draw".into(),
+        Edge::Fold => "fold".into(),
+        Edge::Check => "check".into(),
+        Edge::Call => "call".into(),
+        Edge::Shove => "shove".into(),
+        Edge::Raise(Odds(n, d)) => format!("raise:{n}:{d}"),
+    }
+}
+fn show_edges(es: &[Edge]) -> String {
+    if es.is_empty() { "-".into() } else { es.iter().map(show_edge).collect::<Vec<_>>().join(",") }
+}
+fn variant(a: &Abstraction) -> u8 {
+    match a {
+        Abstraction::Percent(_) => 0,
+        Abstraction::Learned(_) => 1,
+        Abstraction::Preflop(_) => 2,
+    }
+}
+fn show_abs(a: &Abstraction) -> String {
+    format!("{}:{}", variant(a), u64::from(*a))
+}
+fn street_no(s: Street) -> usize {
+    s as isize as usize
+}
+fn street_of(n: usize) -> Street {
+    [Street::Pref, Street::Flop, Street::Turn, Street::Rive][n]
+}
+fn opt(x: Option<String>) -> String {
+    x.unwrap_or_else(|| "panic".into())
+}
+/// expected street number from the number of board cards (poker rules, not the code's table)
+fn street_by_board(n: u32) -> Option<usize> {
+    match n { 0 => Some(0), 3 => Some(1), 4 => Some(2), 5 => Some(3), _ => None }
+}
+
+struct Distinct {
+    name: &'static str,
+    codes: Vec<i128>,
+    values: u64,
+}
+impl Distinct {
+    fn new(name: &'static str) -> Self { Distinct { name, codes: vec![], values: 0 } }
+    fn push(&mut self, c: i128) { self.codes.push(c); self.values += 1; }
+    fn check(mut self, run: &mut Run) {
+        self.codes.sort_unstable();
+        let n = self.codes.len();
+        let mut dup = None;
+        for w in self.codes.windows(2) {
+            if w[0] == w[1] { dup = Some(w[0]); break; }
+        }
+        run.spec_checked += 1;
+        run.count_n(&format!("distinct-codes:{}", self.name), n as u64);
+        if let Some(d) = dup {
+            run.fail(&format!("{}-codes-collide", self.name), &format!("{} distinct values", self.values), "pairwise distinct codes", &format!("code {d} produced twice"));
+        }
+    }
+}
+
+fn obs_case(run: &mut Run, pocket: u64, public: u64, lines: bool, dist: &mut Distinct) {
+    run.evaluations += 1;
+    let o = Observation::from((Hand::from(pocket), Hand::from(public)));
+    let code = i64::from(o);
+    dist.push(code as i128);
+    let back = catch(move || Observation::from(code));
+    let st = catch(move || Street::from(code));
+    run.spec_checked += 2;
+    let input = format!("obs pocket={pocket} public={public}");
+    match back {
+        Some(b) if b == o => {}
+        Some(b) => run.fail("observation-roundtrip", &input, &format!("{pocket} {public}"), &format!("{} {}", u64::from(*b.pocket()), u64::from(*b.public()))),
+        None => run.fail("observation-roundtrip", &input, &format!("{pocket} {public}"), "panic"),
+    }
+    let want = street_by_board(public.count_ones());
+    match (st, want) {
+        (Some(s), Some(w)) if street_no(s) == w && street_no(o.street()) == w => {}
+        (s, w) => run.fail("street-from-observation-code", &input, &format!("{w:?}"), &format!("{:?}", s.map(street_no))),
+    }
+    if lines {
+        run.line(&format!("enc-obs {pocket} {public}"), &format!("{code}"));
+        run.line(&format!("dec-obs {code}"), &opt(back.map(|b| format!("{} {}", u64::from(*b.pocket()), u64::from(*b.public())))));
+        run.line(&format!("street-obs {code}"), &opt(st.map(|s| street_no(s).to_string())));
+        run.distinct(&("obs", pocket, public));
+    }
+}
+
 fn main() {
-    let a = rpharness::args();
-    let mut run = rpharness::Run::new(&a.out);
-    run.rule = "stub".into();
+    let a = args();
+    let mut rng = Rng::new(a.seed);
+    let mut run = Run::new(&a.out);
+    quiet_panics();
+    let deep = a.thorough();
+    let full: u64 = (1u64 << 52) - 1;
+
+    // ------------------------------------------------------------ cards
+    let mut d8 = Distinct::new("card-u8");
+    let mut d32 = Distinct::new("card-u32");
+    for c in 0u8..52 {
+        run.evaluations += 1;
+        let card = Card::from(c);
+        let n8 = u8::from(card);
+        let n32 = u32::from(card);
+        d8.push(n8 as i128);
+        d32.push(n32 as i128);
+        run.line(&format!("enc-card8 {c}"), &format!("{n8}"));
+        run.line(&format!("dec-card8 {n8}"), &format!("{}", u8::from(Card::from(n8))));
+        run.line(&format!("enc-card32 {c}"), &format!("{n32}"));
+        let back = catch(move || u8::from(Card::from(n32)));
+        run.line(&format!("dec-card32 {n32}"), &opt(back.map(|x| x.to_string())));
+        run.spec_checked += 2;
+        if Card::from(n8) != card { run.fail("card-u8-roundtrip", &format!("card {c}"), &format!("{c}"), &format!("{}", u8::from(Card::from(n8)))); }
+        if back != Some(c) { run.fail("card-u32-roundtrip", &format!("card {c}"), &format!("{c}"), &format!("{back:?}")); }
+        // rank/suit split
+        if u8::from(Card::from((card.rank(), card.suit()))) != c { run.fail("card-rank-suit-roundtrip", &format!("card {c}"), &format!("{c}"), "other"); }
+        run.distinct(&("card", c));
+        run.count("card");
+    }
+    d8.check(&mut run);
+    d32.check(&mut run);
+    // codes outside the image: model fidelity of the panics
+    for i in 0..400u32 {
+        let n: u32 = match i { 0 => 0, 1 => 1, 2 => 1 << 13, 3 => 1 << 17, 4 => 0x1FFF, 5 => u32::MAX, _ => (rng.next() as u32) >> (rng.below(20) as u32) };
+        let back = catch(move || u8::from(Card::from(n)));
+        run.line(&format!("dec-card32 {n}"), &opt(back.map(|x| x.to_string())));
+        run.count(if back.is_some() { "card32-garbage-decodes" } else { "card32-garbage-panics" });
+    }
+
+    // ------------------------------------------------------------ hands
+    let nh = if deep { 200_000 } else { 20_000 };
+    for i in 0..nh {
+        run.evaluations += 1;
+        let raw = match i { 0 => 0, 1 => u64::MAX, 2 => full, _ => if i % 3 == 0 { let k = rng.below(8) as usize; rng.cards(k, full) } else { rng.next() } };
+        let h = Hand::from(raw);
+        let n = u64::from(h);
+        run.line(&format!("dec-hand {raw}"), &format!("{n}"));
+        run.line(&format!("enc-hand {n}"), &format!("{}", u64::from(Hand::from(n))));
+        let cards: Vec<u8> = Vec::<Card>::from(h).into_iter().map(u8::from).collect();
+        let iter: Vec<u8> = h.into_iter().map(u8::from).collect();
+        run.line(&format!("cards-hand {n}"), &if cards.is_empty() { "-".into() } else { cards.iter().map(|c| c.to_string()).collect::<Vec<_>>().join(",") });
+        run.spec_checked += 3;
+        if Hand::from(n) != h { run.fail("hand-u64-roundtrip", &format!("hand {n}"), &format!("{n}"), &format!("{}", u64::from(Hand::from(n)))); }
+        let want: Vec<u8> = (0..64).filter(|b| n >> b & 1 == 1).collect();
+        if cards != want || iter != want { run.fail("hand-cards", &format!("hand {n}"), &format!("{want:?}"), &format!("{cards:?} / {iter:?}")); }
+        if u64::from(Hand::from(Vec::<Card>::from(h))) != n { run.fail("hand-vec-roundtrip", &format!("hand {n}"), &format!("{n}"), "other"); }
+        run.distinct(&("hand", n));
+        run.count("hand");
+    }
+
+    // ------------------------------------------------------------ observations
+    {
+        let mut dist = Distinct::new("observation-i64");
+        // all 1326 pre-flop observations
+        for i in 0..52u64 {
+            for j in (i + 1)..52 {
+                obs_case(&mut run, 1 << i | 1 << j, 0, true, &mut dist);
+                run.count("obs-preflop(all 1326)");
+            }
+        }
+        if deep {
+            // all 25,989,600 flop observations through the oracle; every 16th also as a model line
+            let mut k = 0u64;
+            for i in 0..52u64 {
+                for j in (i + 1)..52 {
+                    let pocket = 1u64 << i | 1 << j;
+                    for x in 0..52u64 {
+                        if pocket >> x & 1 == 1 { continue; }
+                        for y in (x + 1)..52 {
+                            if pocket >> y & 1 == 1 { continue; }
+                            for z in (y + 1)..52 {
+                                if pocket >> z & 1 == 1 { continue; }
+                                k += 1;
+                                obs_case(&mut run, pocket, 1 << x | 1 << y | 1 << z, k % 16 == 0, &mut dist);
+                            }
+                        }
+                    }
+                }
+            }
+            run.count_n("obs-flop(all 25,989,600)", k);
+            run.notes.push(format!("flop observations enumerated completely: {k}"));
+        }
+        let ns = if deep { 300_000 } else { 40_000 };
+        let mut seen = std::collections::HashSet::new();
+        for (name, nb) in [("obs-flop(sampled)", 3usize), ("obs-turn(sampled)", 4), ("obs-river(sampled)", 5)] {
+            if deep && nb == 3 { continue; }
+            for _ in 0..ns {
+                let pocket = rng.cards(2, full);
+                let public = rng.cards(nb, full & !pocket);
+                if seen.insert((pocket, public)) {
+                    obs_case(&mut run, pocket, public, true, &mut dist);
+                    run.count(name);
+                }
+            }
+        }
+        // boundary cards: lowest / highest cards in every position
+        for (pocket, public) in [(0b11u64, 0b11100u64), (3 << 50, 7 << 47), (1 | 1 << 51, 0b1110), (1 | 1 << 51, 0b11111 << 1), (3 << 50, 0b11111), (0b11, 0b11111 << 47), (0b11, 0)] {
+            if seen.insert((pocket, public)) && !(public == 0) {
+                obs_case(&mut run, pocket, public, true, &mut dist);
+                run.count("obs-boundary");
+            }
+        }
+        dist.check(&mut run);
+        // codes outside the image (model fidelity of the panics)
+        for i in 0..600u64 {
+            let code: i64 = match i {
+                0 => 0, 1 => -1, 2 => i64::MIN, 3 => i64::MAX, 4 => 0x0100, 5 => 0x0101, 6 => 0x010203, 7 => 0x35, 8 => 0x3536,
+                9 => 0x0102030405060708, 10 => 0x4142, 11 => 0x0102000304,
+                _ => {
+                    let nb = 1 + rng.below(8);
+                    let mut v = 0i64;
+                    for _ in 0..nb { v = (v << 8) | (if rng.chance(1, 12) { rng.below(256) } else { 1 + rng.below(53) }) as i64; }
+                    v
+                }
+            };
+            let back = catch(move || Observation::from(code));
+            let st = catch(move || Street::from(code));
+            run.line(&format!("dec-obs {code}"), &opt(back.map(|b| format!("{} {}", u64::from(*b.pocket()), u64::from(*b.public())))));
+            run.line(&format!("street-obs {code}"), &opt(st.map(|s| street_no(s).to_string())));
+            run.count(if back.is_some() { "obs-garbage-decodes" } else { "obs-garbage-panics" });
+        }
+    }
+
+    // ------------------------------------------------------------ actions
+    {
+        let mut dist = Distinct::new("action-u32");
+        let mut acts: Vec<(Action, &'static str)> = vec![(Action::Fold, "action-fold"), (Action::Check, "action-check")];
+        for x in i16::MIN..=i16::MAX {
+            let tag = if x >= 0 { "action-chips(0..=32767)" } else { "action-chips(negative)" };
+            acts.push((Action::Call(x), tag));
+            acts.push((Action::Raise(x), tag));
+            acts.push((Action::Shove(x), tag));
+            acts.push((Action::Blind(x), tag));
+        }
+        acts.push((Action::Draw(Hand::from(0u64)), "action-draw-0"));
+        for x in 0..52u64 {
+            acts.push((Action::Draw(Hand::from(1u64 << x)), "action-draw-1(all 52)"));
+            for y in (x + 1)..52 {
+                acts.push((Action::Draw(Hand::from(1u64 << x | 1 << y)), "action-draw-2(all 1326)"));
+                for z in (y + 1)..52 {
+                    acts.push((Action::Draw(Hand::from(1u64 << x | 1 << y | 1 << z)), "action-draw-3(all 22100)"));
+                }
+            }
+        }
+        for (act, tag) in acts {
+            run.evaluations += 1;
+            let code = u32::from(act);
+            dist.push(code as i128);
+            let back = catch(move || Action::from(code));
+            run.line(&format!("enc-action {}", show_action(&act)), &format!("{code}"));
+            run.line(&format!("dec-action {code}"), &opt(back.map(|b| show_action(&b))));
+            run.spec_checked += 1;
+            if back != Some(act) { run.fail("action-roundtrip", &show_action(&act), &show_action(&act), &opt(back.map(|b| show_action(&b)))); }
+            run.distinct(&("action", code));
+            run.count(tag);
+        }
+        dist.check(&mut run);
+        for i in 0..3000u32 {
+            let code: u32 = match i { 0 => 7, 1 => 255, 2 => 6 | 1 << 8 | 1 << 16, 3 => 6 | 200 << 8, 4 => 6 | 53 << 8, 5 => 6 | 65 << 8, 6 => u32::MAX, _ => if i % 2 == 0 { (rng.next() as u32 & !0xFF) | rng.below(8) as u32 } else { 6 | ((1 + rng.below(70)) as u32) << 8 | (rng.below(70) as u32) << 16 | (rng.below(70) as u32) << 24 } };
+            let back = catch(move || Action::from(code));
+            run.line(&format!("dec-action {code}"), &opt(back.map(|b| show_action(&b))));
+            run.count(if back.is_some() { "action-garbage-decodes" } else { "action-garbage-panics" });
+        }
+    }
+
+    // ------------------------------------------------------------ edges
+    let mut edges: Vec<Edge> = vec![Edge::Draw, Edge::Fold, Edge::Check, Edge::Call, Edge::Shove];
+    edges.extend(Odds::GRID.iter().map(|o| Edge::Raise(*o)));
+    {
+        let mut dist8 = Distinct::new("edge-u8");
+        let mut dist64 = Distinct::new("edge-u64");
+        for e in &edges {
+            let e = *e;
+            run.evaluations += 1;
+            let c8 = u8::from(e);
+            let c64 = u64::from(e);
+            dist8.push(c8 as i128);
+            dist64.push(c64 as i128);
+            let b8 = catch(move || Edge::from(c8));
+            let b64 = catch(move || Edge::from(c64));
+            run.line(&format!("enc-edge8 {}", show_edge(&e)), &format!("{c8}"));
+            run.line(&format!("dec-edge8 {c8}"), &opt(b8.map(|x| show_edge(&x))));
+            run.line(&format!("enc-edge64 {}", show_edge(&e)), &format!("{c64}"));
+            run.line(&format!("dec-edge64 {c64}"), &opt(b64.map(|x| show_edge(&x))));
+            run.spec_checked += 3;
+            if b8 != Some(e) { run.fail("edge-u8-roundtrip", &show_edge(&e), &show_edge(&e), &format!("{b8:?}")); }
+            if b64 != Some(e) { run.fail("edge-u64-roundtrip", &show_edge(&e), &show_edge(&e), &format!("{b64:?}")); }
+            if c8 == 0 || c8 > 15 { run.fail("edge-u8-not-a-nibble", &show_edge(&e), "1..=15", &format!("{c8}")); }
+            run.distinct(&("edge", c64));
+            run.count("edge(all 15)");
+        }
+        dist8.check(&mut run);
+        dist64.check(&mut run);
+        for v in 0u16..=255 {
+            let v = v as u8;
+            let b = catch(move || Edge::from(v));
+            run.line(&format!("dec-edge8 {v}"), &opt(b.map(|x| show_edge(&x))));
+            run.count("edge-u8-all-256-codes");
+        }
+        // every raise with 8-bit odds through the u64 form; off-grid odds through the u8 form panic
+        let mut d = Distinct::new("edge-u64-all-8bit-odds");
+        for n in 0i16..=255 {
+            for dn in 0i16..=255 {
+                run.evaluations += 1;
+                let e = Edge::Raise(Odds(n, dn));
+                let c = u64::from(e);
+                d.push(c as i128);
+                let b = catch(move || Edge::from(c));
+                run.spec_checked += 1;
+                if b != Some(e) { run.fail("edge-u64-roundtrip", &show_edge(&e), &show_edge(&e), &format!("{b:?}")); }
+                if (n * 7 + dn) % 5 == 0 || n < 6 || dn < 6 {
+                    run.line(&format!("enc-edge64 {}", show_edge(&e)), &format!("{c}"));
+                    run.line(&format!("dec-edge64 {c}"), &opt(b.map(|x| show_edge(&x))));
+                }
+                run.count("edge-u64-raise-8bit-odds(all 65536)");
+            }
+        }
+        d.check(&mut run);
+        for (n, dn) in [(5i16, 7i16), (0, 0), (-1, 2), (1, -4), (256, 1), (300, 511), (i16::MIN, i16::MAX)] {
+            let e = Edge::Raise(Odds(n, dn));
+            let c8 = catch(move || u8::from(e));
+            run.line(&format!("enc-edge8 {}", show_edge(&e)), &opt(c8.map(|x| x.to_string())));
+            let c = u64::from(e);
+            let b = catch(move || Edge::from(c));
+            run.line(&format!("enc-edge64 {}", show_edge(&e)), &format!("{c}"));
+            run.line(&format!("dec-edge64 {c}"), &opt(b.map(|x| show_edge(&x))));
+            run.count("edge-off-grid");
+        }
+        for i in 0..2000u64 {
+            let v = if i < 64 { i } else { rng.next() >> rng.below(50) };
+            let b = catch(move || Edge::from(v));
+            run.line(&format!("dec-edge64 {v}"), &opt(b.map(|x| show_edge(&x))));
+            run.count(if b.is_some() { "edge64-garbage-decodes" } else { "edge64-garbage-panics" });
+        }
+    }
+
+    // ------------------------------------------------------------ paths
+    {
+        let mut dist = Distinct::new("path-u64");
+        let mut lists: Vec<Vec<Edge>> = vec![vec![]];
+        for x in &edges {
+            lists.push(vec![*x]);
+            for y in &edges {
+                lists.push(vec![*x, *y]);
+            }
+        }
+        for e in &edges { lists.push(vec![*e; 16]); }
+        let np = if deep { 300_000 } else { 50_000 };
+        let mut seen = std::collections::HashSet::new();
+        for l in &lists { seen.insert(l.iter().map(|e| u8::from(*e)).collect::<Vec<u8>>()); }
+        while lists.len() < np {
+            let n = if rng.chance(1, 4) { 16 } else { rng.below(17) as usize };
+            let l: Vec<Edge> = (0..n).map(|_| edges[rng.below(15) as usize]).collect();
+            if seen.insert(l.iter().map(|e| u8::from(*e)).collect::<Vec<u8>>()) { lists.push(l); }
+        }
+        for l in lists {
+            run.evaluations += 1;
+            let l2 = l.clone();
+            let p = u64::from(Path::from(l2));
+            dist.push(p as i128);
+            let back = catch(move || Vec::<Edge>::from(Path::from(p)));
+            run.line(&format!("enc-path {}", show_edges(&l)), &format!("{p}"));
+            run.line(&format!("dec-path {p}"), &opt(back.clone().map(|b| show_edges(&b))));
+            let i = i64::from(Path::from(p));
+            run.line(&format!("path-i64 {p}"), &format!("{i}"));
+            run.line(&format!("path-of-i64 {i}"), &format!("{}", u64::from(Path::from(i))));
+            run.spec_checked += 2;
+            if back.as_ref() != Some(&l) { run.fail("path-roundtrip", &show_edges(&l), &show_edges(&l), &opt(back.map(|b| show_edges(&b)))); }
+            if u64::from(Path::from(i)) != p { run.fail("path-i64-roundtrip", &format!("{p}"), &format!("{p}"), &format!("{}", u64::from(Path::from(i)))); }
+            run.distinct(&("path", p));
+            run.count(&format!("path-len={:02}", l.len()));
+        }
+        dist.check(&mut run);
+        // 17 edges: the length assertion
+        let long = vec![Edge::Fold; 17];
+        let r = catch(move || u64::from(Path::from(long)));
+        run.line(&format!("enc-path {}", show_edges(&vec![Edge::Fold; 17])), &opt(r.map(|x| x.to_string())));
+        run.count("path-too-long");
+        for i in 0..3000u64 {
+            let p = if i == 0 { 0 } else if i == 1 { u64::MAX } else { rng.next() >> rng.below(60) };
+            let back = catch(move || Vec::<Edge>::from(Path::from(p)));
+            run.line(&format!("dec-path {p}"), &opt(back.map(|b| show_edges(&b))));
+            run.count("path-garbage-decodes");
+        }
+    }
+
+    // ------------------------------------------------------------ abstractions (all 542 buckets), pairs
+    let mut all_abs: Vec<Vec<Abstraction>> = vec![];
+    {
+        let mut dist = Distinct::new("abstraction-u64");
+        let counts = [169usize, robopoker::verif::KMEANS_FLOP_CLUSTER_COUNT, robopoker::verif::KMEANS_TURN_CLUSTER_COUNT, robopoker::verif::KMEANS_EQTY_CLUSTER_COUNT];
+        for s in 0..4usize {
+            let street = street_of(s);
+            let listed = Abstraction::all(street);
+            run.spec_checked += 1;
+            if listed.len() != counts[s] { run.fail("abstraction-count", &format!("street {s}"), &format!("{}", counts[s]), &format!("{}", listed.len())); }
+            let mut v = vec![];
+            for i in 0..counts[s] {
+                run.evaluations += 1;
+                let ab = Abstraction::from((street, i));
+                v.push(ab);
+                let n = u64::from(ab);
+                let i64v = i64::from(ab);
+                dist.push(n as i128);
+                run.line(&format!("abs {s} {i}"), &show_abs(&ab));
+                let back = catch(move || Abstraction::from(n));
+                let st = back.and_then(|b| catch(move || street_no(b.street())));
+                run.line(&format!("dec-abs {n}"), &opt(back.map(|b| format!("{} {} {}", show_abs(&b), opt(st.map(|x| x.to_string())), b.index()))));
+                run.line(&format!("abs-i64 {n}"), &format!("{i64v}"));
+                let back2 = catch(move || Abstraction::from(i64v));
+                let st2 = back2.and_then(|b| catch(move || street_no(b.street())));
+                run.line(&format!("abs-of-i64 {i64v}"), &opt(back2.map(|b| format!("{} {}", show_abs(&b), opt(st2.map(|x| x.to_string()))))));
+                run.spec_checked += 4;
+                if back != Some(ab) { run.fail("abstraction-u64-roundtrip", &format!("abs {s} {i}"), &show_abs(&ab), &format!("{back:?}")); }
+                if back2 != Some(ab) { run.fail("abstraction-i64-roundtrip", &format!("abs {s} {i}"), &show_abs(&ab), &format!("{back2:?}")); }
+                if st2 != Some(s) || street_no(ab.street()) != s { run.fail("street-from-bucket-code", &format!("abs {s} {i}"), &format!("{s}"), &format!("{st2:?}")); }
+                if ab.index() != i { run.fail("abstraction-index", &format!("abs {s} {i}"), &format!("{i}"), &format!("{}", ab.index())); }
+                if listed.get(i) != Some(&ab) { run.fail("abstraction-all-list", &format!("abs {s} {i}"), &show_abs(&ab), "other"); }
+                run.distinct(&("abs", n));
+                run.count(&format!("abstraction-street={s}"));
+            }
+            all_abs.push(v);
+        }
+        dist.check(&mut run);
+        // large / random indices (the index is truncated to 12 bits by the constructor)
+        for k in 0..2000u64 {
+            let s = (k % 4) as usize;
+            let i = match k { 0..=3 => 4095, 4..=7 => 4096, 8..=11 => usize::MAX, _ => (rng.next() >> rng.below(60)) as usize };
+            let ab = Abstraction::from((street_of(s), i));
+            run.line(&format!("abs {s} {i}"), &show_abs(&ab));
+            run.count("abstraction-random-index");
+        }
+        for k in 0..2000u64 {
+            let n = match k { 0 => 0, 1 => u64::MAX, 2 => 4 << 56, 3 => (3 << 56) | 0xFFF, _ => (rng.next() & ((1 << 56) - 1)) | (rng.below(6) << 56) };
+            let back = catch(move || Abstraction::from(n));
+            let st = back.and_then(|b| catch(move || street_no(b.street())));
+            run.line(&format!("dec-abs {n}"), &opt(back.map(|b| format!("{} {} {}", show_abs(&b), opt(st.map(|x| x.to_string())), b.index()))));
+            run.count(if back.is_some() { "abstraction-garbage-decodes" } else { "abstraction-garbage-panics" });
+        }
+    }
+    {
+        // pair keys: all unordered pairs within flop, turn, river; distinct over the union
+        let mut dist = Distinct::new("pair-key(flop+turn+river)");
+        let mut total = 0u64;
+        for s in 1..4usize {
+            let v = &all_abs[s];
+            for i in 0..v.len() {
+                for j in (i + 1)..v.len() {
+                    run.evaluations += 1;
+                    let key = i64::from(Pair::from((&v[i], &v[j])));
+                    let key2 = i64::from(Pair::from((&v[j], &v[i])));
+                    dist.push(key as i128);
+                    total += 1;
+                    let (na, nb) = (u64::from(v[i]), u64::from(v[j]));
+                    run.line(&format!("pair {na} {nb}"), &format!("{} {} {}", key as u64, key, i64::from(Pair::from(key)) as u64));
+                    run.spec_checked += 1;
+                    if key != key2 { run.fail("pair-key-not-symmetric", &format!("pair {na} {nb}"), &format!("{key}"), &format!("{key2}")); }
+                    run.distinct(&("pair", key));
+                    run.count(&format!("pair-street={s}"));
+                }
+            }
+        }
+        run.notes.push(format!("pair keys over flop, turn, river: {total}"));
+        dist.check(&mut run);
+        for s in 1..4usize {
+            let mut d = Distinct::new(["", "pair-key(flop)", "pair-key(turn)", "pair-key(river)"][s]);
+            let v = &all_abs[s];
+            for i in 0..v.len() { for j in (i + 1)..v.len() { d.push(i64::from(Pair::from((&v[i], &v[j]))) as i128); } }
+            d.check(&mut run);
+        }
+    }
+
+    // ------------------------------------------------------------ buckets (Path, Abstraction, Path)
+    {
+        let nb = if deep { 100_000 } else { 20_000 };
+        let mut dist = Distinct::new("bucket-codes");
+        let mut seen = std::collections::HashSet::new();
+        for _ in 0..nb {
+            let s = rng.below(4) as usize;
+            let ab = all_abs[s][rng.below(all_abs[s].len() as u64) as usize];
+            let mk = |rng: &mut Rng| -> u64 {
+                let n = rng.below(17) as usize;
+                u64::from(Path::from((0..n).map(|_| edges[rng.below(15) as usize]).collect::<Vec<Edge>>()))
+            };
+            let (p, f) = (mk(&mut rng), mk(&mut rng));
+            if !seen.insert((p, u64::from(ab), f)) { continue; }
+            run.evaluations += 1;
+            let b = Bucket::from((Path::from(p), ab, Path::from(f)));
+            let codes = (i64::from(b.0), i64::from(b.1), i64::from(b.2));
+            dist.push(((codes.0 as i128) << 64) ^ ((codes.1 as i128).wrapping_mul(0x9E3779B97F4A7C15)) ^ (codes.2 as i128).rotate_left(32));
+            run.line(&format!("enc-bucket {p} {} {f}", u64::from(ab)), &format!("{} {} {}", codes.0, codes.1, codes.2));
+            let back = catch(move || Bucket::from((Path::from(codes.0), Abstraction::from(codes.1), Path::from(codes.2))));
+            let st = back.and_then(|x| catch(move || street_no(x.1.street())));
+            run.line(&format!("dec-bucket {} {} {}", codes.0, codes.1, codes.2),
+                &opt(back.map(|x| format!("{} {} {} {}", u64::from(x.0), show_abs(&x.1), u64::from(x.2), opt(st.map(|v| v.to_string()))))));
+            run.spec_checked += 2;
+            if back != Some(b) { run.fail("bucket-roundtrip", &format!("bucket {p} {} {f}", u64::from(ab)), "the same bucket", &format!("{back:?}")); }
+            if st != Some(s) { run.fail("street-from-bucket-code", &format!("bucket {p} {} {f}", u64::from(ab)), &format!("{s}"), &format!("{st:?}")); }
+            run.distinct(&("bucket", p, u64::from(ab), f));
+            run.count("bucket(sampled paths x all 542 abstractions)");
+        }
+        let _ = dist; // triples are distinct iff components are; component distinctness is checked above
+    }
+
+    run.exhaustive = deep;
+    run.rule = format!(
+        "exhaustive: 52 cards (u8, u32); 1,326 pre-flop observations{}; fold, check, 4 x 65,536 chip actions (all i16), all draws of 0..3 cards (1+52+1,326+22,100); 15 edges and all 256 u8 codes, all 65,536 raises with 8-bit odds through u64; all paths of <= 2 edges; all 542 abstractions; all 23,474 within-street pairs of flop, turn, river. sampled: {} flop/turn/river observations each, {} paths of <= 16 edges, {} hands, {} buckets, plus decode of codes outside the image (panic fidelity). distinct = distinct (type, value) cases that went through the model line-diff",
+        if deep { "; all 25,989,600 flop observations (oracle; every 16th as a model line)" } else { "" },
+        if deep { 300_000 } else { 40_000 }, if deep { 300_000 } else { 50_000 }, nh, if deep { 100_000 } else { 20_000 });
     run.finish();
 }
